@@ -77,8 +77,11 @@ def gen_case(rng, tier, avoid):
     if kind != 'inline':
         ops, data = gen.externalize(spec.ops, kind, rng)
     allrows = gen.max_rows(spec)
-    w1 = {'path': 'out1.dlis', 'input_chunk_size': gen.pick(rng, gen.ics_choices(rng, allrows)),
+    w1 = {'path': 'out1.dlis', 'input_chunk_size': gen.pick(rng, gen.ics_choices(rng, allrows) if allrows < 1000 else
+                                                            [None, allrows, allrows - 1, 4096, 1000, 16384]),
           'output_chunk_size': gen.pick(rng, [mrl, mrl + 2 * rng.randint(0, 300), 1 << 20])}
+    if allrows >= 1000:
+        w1['output_chunk_size'] = 1 << 20        # (the file proxy snapshots the file at every flush: keep flushes few for long files)
     if w1['input_chunk_size'] is None:
         del w1['input_chunk_size']
     if data:
